@@ -351,6 +351,7 @@ func (o *oracles) diff(prev, snap *scheduler.VerifSnapshot, pending []observatio
 	for i := range prev.Operations {
 		prevTasks[prev.Operations[i].TaskID] = &prev.Operations[i]
 	}
+	o.checkLearnerCalls(prev, snap, actingWorker, submitted, submittedHash)
 
 	for i := range snap.Operations {
 		op := &snap.Operations[i]
@@ -488,6 +489,66 @@ func (o *oracles) fairnessStep(snap *scheduler.VerifSnapshot) {
 		}
 	}
 	o.fair.step(o.prev, snap, actingWorker, completedByWorker)
+}
+
+// checkLearnerCalls: every terminal learner call must match what happened
+// (C07): Succeeded only for a worker's successful completion with the duration
+// the worker reported, Failed only for a worker-reported failure with the
+// right timed-out flag, and an accepted completion is learned exactly once.
+func (o *oracles) checkLearnerCalls(prev, snap *scheduler.VerifSnapshot, actingWorker *workerActor, submitted *remoteexecution.ExecuteResponse, submittedHash string) {
+	w := o.w
+	learned := 0
+	for _, c := range w.analyzer.calls {
+		if c.call == "abandoned" {
+			continue
+		}
+		if c.rec.action.hash == submittedHash {
+			learned++
+		}
+		switch {
+		case submitted == nil || actingWorker == nil || c.rec.action.hash != submittedHash:
+			w.violate("C07/learner-call-without-completion", fmt.Sprintf("learner #%d (%s) of action#%d received %s although no worker reported the completion of that action in this step", c.rec.id, c.rec.kind, c.rec.action.idx, c.call))
+		case c.call == "succeeded":
+			if !isSuccess(submitted) {
+				w.violate("C07/learner-call-mismatch", fmt.Sprintf("learner #%d of action#%d received Succeeded for a response with status %s exit code %d", c.rec.id, c.rec.action.idx, status.FromProto(submitted.Status).Code(), submitted.GetResult().GetExitCode()))
+			} else if want := submitted.GetResult().GetExecutionMetadata().GetVirtualExecutionDuration().AsDuration(); c.duration != want {
+				w.violate("C07/learner-call-mismatch", fmt.Sprintf("learner #%d of action#%d received Succeeded(%s), the worker reported a virtual execution duration of %s", c.rec.id, c.rec.action.idx, c.duration, want))
+			}
+		case c.call == "failed":
+			if isSuccess(submitted) {
+				w.violate("C07/learner-call-mismatch", fmt.Sprintf("learner #%d of action#%d received Failed for a successful response", c.rec.id, c.rec.action.idx))
+			} else if want := status.FromProto(submitted.Status).Code() == codes.DeadlineExceeded; c.timedOut != want {
+				w.violate("C07/learner-call-mismatch", fmt.Sprintf("learner #%d of action#%d received Failed(timedOut=%v) for a response with status %s", c.rec.id, c.rec.action.idx, c.timedOut, status.FromProto(submitted.Status).Code()))
+			}
+		}
+	}
+	// Converse: was the acting worker's completion accepted?
+	if submitted == nil || actingWorker == nil {
+		return
+	}
+	pw := findWorker(prev, actingWorker.queueKey(), actingWorker.workerKey())
+	if pw == nil || pw.TaskID == 0 || pw.ActionDigest != submittedHash {
+		return
+	}
+	accepted := false
+	for i := range snap.Operations {
+		op := &snap.Operations[i]
+		if op.TaskID != pw.TaskID {
+			continue
+		}
+		if op.Stage == remoteexecution.ExecutionStage_COMPLETED && proto.Equal(op.Response, submitted) {
+			accepted = true
+		}
+		if pop := findOp(prev, op.Name); pop != nil && op.Stage != remoteexecution.ExecutionStage_COMPLETED && pop.Queue != op.Queue {
+			accepted = true
+		}
+	}
+	if accepted && learned != 1 {
+		w.violate("C07/completion-not-learned-once", fmt.Sprintf("worker %s completed action %s and the scheduler accepted it, but %d Succeeded/Failed calls were made for it", actingWorker.name, short(submittedHash), learned))
+	}
+	if accepted {
+		w.k.Probe("completion_learned")
+	}
 }
 
 // queueRemovalDue computes when a worker-created queue may be removed: the
@@ -832,6 +893,7 @@ func (o *oracles) processSyncEnd(obs observation, snap *scheduler.VerifSnapshot)
 		tr.expected = wk.Timeout
 		tr.hasSynced = true
 	}
+	o.checkSizeClassRegistration(obs, snap)
 	if obs.err != nil {
 		return
 	}
@@ -906,6 +968,62 @@ func (o *oracles) wakeupInvariants(snap *scheduler.VerifSnapshot) {
 		if sop := findOp(snap, tr.opName); sop != nil && sop.Stage == remoteexecution.ExecutionStage_COMPLETED {
 			w.violate("C06/waiter-not-woken", fmt.Sprintf("stream %s is still blocked although operation %s has completed", s.id, tr.opName))
 		}
+	}
+}
+
+// checkSizeClassRegistration: workers may add size classes only to
+// predeclared platform queues and only up to the declared maximum (C05).
+func (o *oracles) checkSizeClassRegistration(obs observation, snap *scheduler.VerifSnapshot) {
+	w := o.w
+	wa := obs.worker
+	prev := o.prev
+	if prev == nil {
+		return
+	}
+	key := wa.queueKey()
+	if findQueue(prev, key) != nil {
+		return // the size class queue existed already
+	}
+	var sibling *scheduler.VerifQueue
+	for i := range prev.Queues {
+		q := &prev.Queues[i]
+		if q.Key.InstanceNamePrefix == key.InstanceNamePrefix && q.Key.Platform == key.Platform {
+			sibling = q
+		}
+	}
+	if sibling == nil {
+		return // brand-new platform queue: always allowed
+	}
+	// Is the platform queue predeclared? Its largest size class queue is
+	// then not removable.
+	var largest *scheduler.VerifQueue
+	for i := range prev.Queues {
+		q := &prev.Queues[i]
+		if q.Key.InstanceNamePrefix == key.InstanceNamePrefix && q.Key.Platform == key.Platform && (largest == nil || q.Key.SizeClass > largest.Key.SizeClass) {
+			largest = q
+		}
+	}
+	mustReject := largest.MayBeRemoved || key.SizeClass > largest.Key.SizeClass || (largest.Key.SizeClass > 0 && key.SizeClass < 1)
+	// Cleanup at the start of the call may have removed the platform queue
+	// altogether, in which case the worker legitimately re-creates it.
+	stillThere := false
+	for i := range snap.Queues {
+		q := &snap.Queues[i]
+		if q.Key.InstanceNamePrefix == key.InstanceNamePrefix && q.Key.Platform == key.Platform && q.Key != key {
+			stillThere = true
+		}
+	}
+	if !stillThere {
+		return
+	}
+	created := findQueue(snap, key) != nil
+	switch {
+	case mustReject && (created || status.Code(obs.err) != codes.InvalidArgument) && status.Code(obs.err) != codes.PermissionDenied && status.Code(obs.err) != codes.Canceled:
+		w.violate("C05/size-class-accepted", fmt.Sprintf("worker %s registered size class %d on platform queue %q %s (largest %d, predeclared=%v); the call returned %v and the queue exists=%v", wa.name, key.SizeClass, key.InstanceNamePrefix, key.Platform, largest.Key.SizeClass, !largest.MayBeRemoved, obs.err, created))
+	case mustReject:
+		w.k.Probe("size_class_registration_rejected")
+	case !mustReject && created:
+		w.k.Probe("size_class_added_by_worker")
 	}
 }
 
